@@ -12,6 +12,7 @@ from harness.drivers import c12
 
 class _Ctx:
     seed = 0
+    quick = True
 
     @staticmethod
     def pick(q, t):
@@ -42,7 +43,7 @@ def main():
         key = cs['kind'] + ':' + str(cs.get('type', cs.get('u', '')))
         by.setdefault(key, cs)
     base = {}
-    for key in ('matrix:length', 'matrix:temp', 'row:J', 'tables:', 'spectro:', 'elements:'):
+    for key in ('matrix:length', 'matrix:temp', 'row:J', 'tables:', 'spectro:', 'elements:', 'array:length'):
         evs, mism = c12.execute(by[key])
         base[key] = evs
     L, T, X, TB, SP, EL = (base[k] for k in ('matrix:length', 'matrix:temp', 'row:J', 'tables:',
@@ -124,6 +125,20 @@ def main():
     ev = copy.deepcopy(TB); del ev[find(ev, ev='const', name='Na')]
     add('the Na observation deleted', ev, {'AmountIsAvogadro', 'RTable', 'RisKbNa'})
 
+    AR = base['array:length']
+    ia = find(AR, ev='array', kind='f64')
+    ev = copy.deepcopy(AR); ev[ia]['after'][1][2][1] += 1
+    add('caller array differs in the 17th digit after call 2', ev, {'InputUntouched'})
+    ev = copy.deepcopy(AR); ev[ia]['y1after'][0][0] += 1
+    add('first result changed when reused', ev, {'InputUntouched'})
+    ev = copy.deepcopy(AR); ev[ia]['y2'][1][0] += 1000
+    add('array result differs from scalar result', ev, {'ArrayIsMapOfScalar', 'ArrayTransitive'})
+    ev = copy.deepcopy(AR); ev[ia]['y3'][1][0] += 1000
+    add('second conversion of the reused result off', ev, {'ArrayTransitive'})
+    ev = copy.deepcopy(AR); ev[ia]['y4'][2][0] += 1000
+    add('round trip on the reused result off', ev, {'ArrayInverse'})
+    ev = copy.deepcopy(AR); ev[ia]['raised'] = True
+    add('float64 array refused (allowed: num is documented as float)', ev, set())
     ev = copy.deepcopy(SP); ev[0]['rt'][0][1] = bump(ev[0]['rt'][0][1])
     add('freq_to_energy(energy_to_freq(x)) off', ev, {'SpectroscopicInverse'})
     ev = copy.deepcopy(SP); ev[0]['via'][3][1][2] = bump(ev[0]['via'][3][1][2])
@@ -167,7 +182,7 @@ def main():
     bad = 0
     for k, (desc, evs, expected) in enumerate(runs):
         tid = len(keys) + k
-        b = {'matrix': 0, 'temp': 1, 'cross': 2}.get(evs[0]['ev'])
+        b = {'matrix': 0, 'temp': 1, 'cross': 2, 'array': 6}.get(evs[0]['ev'])
         if b is None:
             b = 3 if any(e['ev'] == 'unit' for e in evs) else (5 if any(e['ev'] == 'element' for e in evs) else 4)
         new = {c for (_, c) in got.get(tid, set()) - got.get(b, set())}
